@@ -206,7 +206,7 @@ fn max_diff(a: &[Coor4D], b: &[Coor4D]) -> f64 {
     m
 }
 
-//@n {"id":"C13.N.conventions","props":["C13"],"tier":"quick","bound":"merc, webmerc, tmerc, btmerc, lcc, laea, somerc, omerc on a 16x16 lattice of their domain: x_0/y_0 (2 values), lon_0 (2 values), k_0 (0.9996), ellipsoid scaling (a x 2); utm zones 1, 17, 32, 60 north and south vs tmerc, butm zones 1, 17, 32, 60 north and south vs btmerc; lcc northern and southern cones up to and including the pole at the apex; merc on a sphere vs webmerc (also at 80 < |lat| <= 89.5); merc lat_ts vs k_0; lcc 1SP vs 2SP with equal parallels","text":"x_0 and y_0 are added to the forward result; lon_0 (degrees) is equivalent to subtracting it from the input longitude; k_0 scales the unshifted plane coordinates linearly; scaling the semi-major axis scales the unshifted result; utm zone=Z == tmerc lon_0=6Z-183 k_0=0.9996 x_0=500000 y_0=0|10000000; butm likewise; merc on a sphere == webmerc on the same sphere; lat_ts == the corresponding k_0; 1SP lcc == 2SP lcc with both parallels equal (tolerance 1e-6 m, relative 1e-12 for scalings)"}
+//@n {"id":"C13.N.conventions","props":["C13"],"tier":"quick","bound":"merc, webmerc, tmerc, btmerc, lcc, laea (oblique, both polar and the equatorial aspect, forward), somerc, omerc on a 16x16 lattice of their domain: x_0/y_0 (2 values), lon_0 (2 values), k_0 (0.9996), ellipsoid scaling (a x 2); utm zones 1, 17, 32, 60 north and south vs tmerc, butm zones 1, 17, 32, 60 north and south vs btmerc; lcc northern and southern cones up to and including the pole at the apex; merc on a sphere vs webmerc (also at 80 < |lat| <= 89.5); merc lat_ts vs k_0; lcc 1SP vs 2SP with equal parallels","text":"x_0 and y_0 are added to the forward result; lon_0 (degrees) is equivalent to subtracting it from the input longitude; k_0 scales the unshifted plane coordinates linearly; scaling the semi-major axis scales the unshifted result; utm zone=Z == tmerc lon_0=6Z-183 k_0=0.9996 x_0=500000 y_0=0|10000000; butm likewise; merc on a sphere == webmerc on the same sphere; lat_ts == the corresponding k_0; 1SP lcc == 2SP lcc with both parallels equal (tolerance 1e-6 m, relative 1e-12 for scalings)"}
 #[test]
 fn verif_native_c13_conventions() {
     let mut ctx = Minimal::default();
@@ -215,7 +215,7 @@ fn verif_native_c13_conventions() {
     let mut n = 0;
     let dom = |lon: (f64, f64), lat: (f64, f64)| lattice(&Case { def: "", lon, lat, heights: &[0.0], tol_m: 0.0, angular_out: false }, 16);
     // (base definition, domain)
-    let projs: [(&str, Vec<Coor4D>); 9] = [
+    let projs: [(&str, Vec<Coor4D>); 12] = [
         ("merc", dom((-150.0, 150.0), (-80.0, 80.0))),
         ("webmerc", dom((-150.0, 150.0), (-80.0, 80.0))),
         ("tmerc", dom((-20.0, 20.0), (-80.0, 80.0))),
@@ -225,6 +225,9 @@ fn verif_native_c13_conventions() {
         ("somerc lat_0=46.95", dom((-20.0, 20.0), (25.0, 70.0))),
         ("omerc latc=4 alpha=53:18:56.9537 gamma_c=53:07:48.3685", dom((-6.0, 6.0), (-3.0, 12.0))),
         ("lcc lat_1=-33 lat_2=-45 lat_0=-35", dom((-100.0, 100.0), (-90.0, 40.0))),
+        ("laea lat_0=90", dom((-170.0, 170.0), (5.0, 90.0))),
+        ("laea lat_0=-90", dom((-170.0, 170.0), (-90.0, -5.0))),
+        ("laea lat_0=0", dom((-80.0, 80.0), (-70.0, 70.0))),
     ];
     let mut check = |id: String, ok: bool, msg: String, fails: &mut Vec<String>, ids: &mut Vec<String>, n: &mut usize| {
         *n += 1;
